@@ -6,9 +6,11 @@ CONSTANTS
   GW = 98
   Far = 99
   ReqHosts = {""}
+  BadHosts = {}
   StaticHosts = {"", "h1"}
   MaxStatic = 2
+  LeaseT = 1
 INVARIANTS
   OneHolderPerAddress KeyedByAddress OneLeasePerClient DynamicInsidePool
   ReservedClientGetsReservation6 OfferWhenFree6 HeldOnDisk DiskIsATable
-  RestartRestoresHeld StaticsHeld BoundedStatics
+  RestartRestoresHeld RemBounded BoundedStatics
